@@ -157,6 +157,50 @@ def check(model: Model, run: Run) -> None:
 
     _r3_aspath(model, run, folder)
 
+    # ------------------------------------------------------------------ R6 a deep copy shares nothing that can be edited
+    run.rule('C15.R6', 'every __deepcopy__ gives the copy its own mutable containers: a slot whose type is a list / dict / set is filled through deepcopy(), never with a new outer container around the same inner objects', floor=5)
+    n_dc = 0
+    for fi in sorted(model.funcs.values(), key=lambda f: f.qualname):
+        if fi.name != '__deepcopy__' or not fi.module.rel.startswith('exabgp/'):
+            continue
+        run.analysed(fi)
+        for a in walk_no_nested(fi.node):
+            if not (isinstance(a, ast.Assign) and isinstance(a.targets[0], ast.Attribute) and isinstance(a.targets[0].value, ast.Name) and a.targets[0].value.id != 'self'):
+                continue
+            n_dc += 1
+            ty = model.type_of(fi.module, a.value)
+            mutable = any(k in ty for k in ('list[', 'dict[', 'set[', 'List[', 'Dict[', 'Set[', 'bytearray', 'deque'))
+            deep = any(isinstance(x, ast.Call) and dotted(x.func) in ('deepcopy', 'copy.deepcopy') for x in ast.walk(a.value))
+            run.check(not mutable or deep, fi.qualname, 'copy.%s is its own object%s' % (a.targets[0].attr, ' (deepcopy)' if deep else ''), fi.loc(a), 'the copy gets a container of type %s that still holds the ORIGINAL inner objects: editing the copy (Flow.add appends to the per-component lists) changes what the original renders while its packed bytes, index and hash stay as they were' % ty[:70])
+    if n_dc < 5:
+        run.cannot('only %d slot assignments found in __deepcopy__ methods' % n_dc)
+
+    # ------------------------------------------------------------------ R7 order-independent equality needs an order-independent index
+    run.rule('C15.R7', 'attribute sets that AttributeCollection.sameValuesAs compares independently of their order render in sorted order: index() and __hash__ of a collection are built from that text, so equal collections must print the same', floor=1)
+    sv = model.func('exabgp.bgp.message.update.attribute.collection.AttributeCollection.sameValuesAs')
+    run.analysed(sv)
+    unordered = set()
+    for iff in walk_no_nested(sv.node):
+        if isinstance(iff, ast.If) and isinstance(iff.test, ast.Call) and dotted(iff.test.func) == 'isinstance' and len(iff.test.args) == 2 and any(isinstance(x, ast.Call) and dotted(x.func) == 'sorted' for st_ in iff.body for x in ast.walk(st_)):
+            for cq_ in model.type_classes(sv.module, iff.test.args[1]) or []:
+                unordered.add(cq_)
+            d_ = dotted(iff.test.args[1])
+            if d_ and d_ in sv.module.imports:
+                unordered.add(sv.module.imports[d_])
+    unordered = {c for c in unordered if c in model.classes}
+    if not unordered:
+        run.cannot('sameValuesAs: the order-independent comparison branch was not found')
+    for cq_ in sorted(unordered):
+        for sub in sorted({cq_} | set(model.all_subclasses(cq_))):
+            ci_ = model.classes.get(sub)
+            if ci_ is None or '__repr__' not in ci_.methods:
+                continue
+            rp = ci_.methods['__repr__']
+            run.analysed(rp)
+            iters = [g.iter for n in walk_with_lambdas(rp.node) if isinstance(n, (ast.GeneratorExp, ast.ListComp)) for g in n.generators] + [n.iter for n in walk_no_nested(rp.node) if isinstance(n, ast.For)]
+            bad_it = [it for it in iters if not (isinstance(it, ast.Call) and dotted(it.func) == 'sorted')]
+            run.check(bool(iters) and not bad_it, rp.qualname, 'renders its members in sorted order', rp.loc(bad_it[0]) if bad_it else rp.loc(), 'a set received from a peer keeps the order of the wire: two collections that sameValuesAs / __eq__ call equal print differently, so index() and __hash__ differ - a dict lookup misses and the outgoing RIB files them under two attribute groups')
+
     # ------------------------------------------------------------------ R2 registry completeness
     run.rule('C15.R2', 'every registered NLRI class has effective pack_nlri, unpack_nlri, index and json that are not the raising base stub; every registered attribute has pack_attribute, unpack_attribute and json', floor=40)
     seen = set()
